@@ -139,7 +139,7 @@ JudgeCtor(r) ==
     ELSE IF CtorOmitsRequired(r.sig, r.shape) THEN
         Verdict(r.id, "ACCEPT", "unconstrained", 0, FALSE, FALSE, r.exc)
     ELSE IF r.exc # "" THEN Verdict(r.id, "REJECT", "Total", 0, TRUE, FALSE, r.exc)
-    ELSE IF ~CtorDictOK(r.sig, r.shape, r.out) THEN Verdict(r.id, "REJECT", "FieldBinding", 0, TRUE, TRUE, "")
+    ELSE IF ~CtorDictOK(r.sig, r.shape, r.out, r.flags.zkw) THEN Verdict(r.id, "REJECT", "FieldBinding", 0, TRUE, TRUE, "")
     ELSE Verdict(r.id, "ACCEPT", "", 0, TRUE, TRUE, "")
 
 (* ---- end to end : C01.  record: [id, pass = "e2e", in (the user's chain as a term), out (the AST the     *)
